@@ -137,6 +137,9 @@ func main() {
 		if *raceOn {
 			targs = append(targs, "-race")
 		}
+		if *expect == "deadlock" {
+			targs = append(targs, "-timeout", "25s") // a hang is confirmed by the test binary's own watchdog
+		}
 		targs = append(targs, ".")
 		cmd := exec.Command("timeout", append([]string{"-k", "5", fmt.Sprint(*replayTimeout), "go"}, targs...)...)
 		cmd.Dir = *dir
@@ -146,6 +149,10 @@ func main() {
 		}
 		out, _ := cmd.CombinedOutput()
 		shown := false
+		if *expect == "deadlock" && (strings.Contains(string(out), "panic: test timed out") || strings.Contains(string(out), "all goroutines are asleep")) {
+			fmt.Println("VERIF-REPLAY the native run hangs (test watchdog fired / runtime deadlock report)")
+			fmt.Println("VERIF-REPLAY REPRODUCED")
+		}
 		if *expect == "race" && strings.Contains(string(out), "WARNING: DATA RACE") {
 			fmt.Println("VERIF-REPLAY the race detector reports a data race in the native run")
 			fmt.Println("VERIF-REPLAY REPRODUCED")
